@@ -314,7 +314,10 @@ def _norm(msg):
 
 
 # ---- star arguments of unknown length (typed sequences) into *args: every sequence of 1-3 star arguments, optionally with a literal between them ----------
-SS_FORMS = ["def f(*args: int) -> int: return len(args)", "def f(a: int, *args: int) -> int: return a", "def f(*args: T) -> T: return args[0]", "def f(a: object, *args: str) -> object: return a"]
+SS_FORMS = ["def f(*args: int) -> int: return len(args)", "def f(a: int, *args: int) -> int: return a", "def f(*args: T) -> T: return args[0]", "def f(a: object, *args: str) -> object: return a",
+            # named parameters only: fed from a star argument and / or a double-star argument of unknown keys
+            "def f(a: int, b: int = 0) -> int: return a", "def f(a: T, b: T) -> T: return a", "def f(a: T, b: T = None, **kw: T) -> T: return a"]
+SS_DICTS = [("sd", "dict[str, str]", "str"), ("di", "dict[str, int]", "int")]
 SS_VARS = [("ii", "list[int]", "int"), ("ss", "Sequence[str]", "str"), ("ti", "tuple[int, ...]", "int"), ("ts", "tuple[str, ...]", "str"), ("bb", "list[bool]", "bool")]
 _SS_OK = {("int", "int"), ("bool", "int"), ("str", "str"), ("int", "object"), ("str", "object"), ("bool", "object")}
 
@@ -322,7 +325,7 @@ _SS_OK = {("int", "int"), ("bool", "int"), ("str", "str"), ("int", "object"), ("
 def _starseq(res, only=None):
     from pa.run import check
     names = [v[0] for v in SS_VARS]
-    elem = {v[0]: v[2] for v in SS_VARS}
+    elem = {v[0]: v[2] for v in SS_VARS + SS_DICTS}
     seqs = []
     for n in (1, 2, 3):
         for combo in itertools.product(names, repeat=n):
@@ -330,9 +333,18 @@ def _starseq(res, only=None):
             if n == 2:
                 seqs.append(["*" + combo[0], "1", "*" + combo[1]])
                 seqs.append(["*" + combo[0], "'s'", "*" + combo[1]])
+    dseqs = []
+    for d in [x[0] for x in SS_DICTS]:
+        dseqs.append(["**" + d])
+        for x in names[:4]:
+            dseqs.append(["*" + x, "**" + d])
+            dseqs.append(["1", "**" + d])
+    all_seqs = seqs
     for fi, fsrc in enumerate(SS_FORMS):
+        named = "*args" not in fsrc
+        seqs = dseqs if named else all_seqs
         lines = ["    reveal_type(f(%s))" % ", ".join(a) for a in seqs]
-        hdr = U.PRELUDE + HELP + fsrc + "\ndef caller(" + ", ".join("%s: %s" % (v[0], v[1]) for v in SS_VARS) + ") -> None:\n"
+        hdr = U.PRELUDE + HELP + fsrc + "\ndef caller(" + ", ".join("%s: %s" % (v[0], v[1]) for v in SS_VARS + SS_DICTS) + ") -> None:\n"
         src = hdr + "\n".join(lines) + "\n"
         first = src.count("\n") - len(lines) + 1
         fails = check(src)
@@ -340,8 +352,11 @@ def _starseq(res, only=None):
         by = {}
         for fl in fails:
             by.setdefault(fl.get("lineno"), []).append((fl["code"].name, fl.get("description", "")))
-        m = re.match(r"def f\((?:a: (\w+), )?\*args: (\w+)\)", fsrc)
-        first_t, star_t = m.group(1), m.group(2)
+        if named:
+            first_t, star_t = None, re.match(r"def f\(a: (\w+)", fsrc).group(1)     # every parameter has this type; any element may reach any of them
+        else:
+            m = re.match(r"def f\((?:a: (\w+), )?\*args: (\w+)\)", fsrc)
+            first_t, star_t = m.group(1), m.group(2)
         for ai, args in enumerate(seqs):
             if only is not None and [fi, args] != only:
                 continue
@@ -351,7 +366,7 @@ def _starseq(res, only=None):
             diagnosed = any(c in ("incompatible_argument", "incompatible_call") for c, _ in ds)
             rev = next((d for c, d in ds if c == "reveal_type"), "")
             # element types that may reach each parameter: the first parameter (if any) may take the first element of the leading star argument(s) or a literal
-            ets = [elem[a[1:]] if a.startswith("*") else ("int" if a == "1" else "str") for a in args]
+            ets = [elem[a.lstrip("*")] if a.startswith("*") else ("int" if a == "1" else "str") for a in args]
             case = {"mode": "starseq", "fi": fi, "args": args, "order": 10 ** 7 + fi * 1000 + ai}
             desc = "%s; call f(%s) with %s" % (fsrc, ", ".join(args), ", ".join("%s: %s" % (v[0], v[1]) for v in SS_VARS))
             if star_t == "T":
